@@ -1,0 +1,7 @@
+//go:build verif
+
+package store
+
+import "time"
+
+func verifUnixNano(ns int64) time.Time { return time.Unix(0, ns) }
